@@ -245,6 +245,10 @@ def default_replay(ctx, key):
         return lambda model, p: native.replay_arith(ctx, model, p['name'])
     if re.match(r'(C04:unpaired|C04:swap|C10:unpaired|C06:unpaired|C16:unpaired)', k):
         return lambda model, p: native.replay_unpaired(ctx, model, p['name'])
+    if re.match(r'C13:relative_to', k):
+        return lambda model, p: native.replay_relative_to(ctx, model, p['name'])
+    if re.match(r'C02:(z_normal|wilson):fp-domain', k):
+        return lambda model, p: native.replay_domain(ctx, model, p['name'], 'wald' if 'z_normal' in k else 'wilson')
     if re.match(r'(C02|C17|C10|C06):(wilson)', k):
         return lambda model, p: native.replay_proportion(ctx, model, p['name'], 'wilson')
     if re.match(r'(C02|C17|C10|C06):(z_normal|wald)', k):
